@@ -91,6 +91,22 @@ Acknowledged(mode, toks) ==
     (IF mode = "meta" THEN "z0" ELSE "p3") \in DlgStates(mode, DlgStart(mode), toks)
 
 ----------------------------------------------------------------------------
+(* "Exported unless marked non-exported": a mapping may carry the marker
+   PKGCORE_NONEXPORTED_VARS (blank separated names).  The marker belongs to THAT mapping:
+   a mapping without the marker, or with an empty one, marks nothing -- whatever was sent
+   to the same daemon / through the same processor object before.
+     marker = [present |-> BOOLEAN, names |-> sequence of names]                          *)
+MarkedNames(marker) == IF marker.present THEN {marker.names[k] : k \in DOMAIN marker.names} ELSE {}
+ExpectedExported(marker, name) == name \notin MarkedNames(marker)
+
+(* Sessions: several mappings sent one after the other through one processor object.  Every
+   transfer is judged against ITS OWN mapping.  The state of one variable in one mapping: *)
+NameStates == {"absent", "str_x", "str_p", "seq_x", "seq_p"}      \* _x exported, _p marked non-exported
+MarkerKinds == {"named", "absent", "empty"}                      \* how the mapping carries the marker
+\* a variable history fits a session iff it is marked only in steps whose mapping names variables
+Fits(hist, mk) == \A j \in DOMAIN mk : (mk[j] # "named") => (hist[j] \notin {"str_p", "seq_p"})
+
+----------------------------------------------------------------------------
 (* Arrival: what the daemon's shell must hold for one name afterwards.
    sent : [present, kind, val, elems, exported]      (present = FALSE: name not in the mapping)
    obs  : [state \in {"unset","str","seq"}, val, elems, idx, exported]
